@@ -7,7 +7,7 @@ import tempfile
 
 VERIF = os.path.dirname(os.path.dirname(os.path.dirname(os.path.abspath(__file__))))
 REPO = os.environ.get("VERIF_REPO", "/repo")
-COQ = os.path.join(VERIF, "coq")
+COQ = os.environ.get("VERIF_COQ") or os.path.join(VERIF, "coq")
 HARNESS = os.path.join(VERIF, "harness")
 SHIMS = os.path.join(VERIF, "shims")
 EVIDENCE = os.path.join(VERIF, "evidence")
